@@ -375,6 +375,43 @@ pub fn templates(thorough: bool) -> Vec<Vec<u8>> {
         }
         v.push(mk);
     }
+    // nested length amplification: every level declares a count that is admissible on its own
+    // (there are at least that many bytes left), so a decoder that reserves per declared entry
+    // before it has decoded any holds depth x count slots for an input of about `count` bytes
+    let amp_depths: &[usize] = if thorough { &[2, 8, 32, 64, 100, 120, 126, 127, 128, 129, 200, 256, 1000] } else { &[2, 8, 32, 64, 120, 127, 128, 129, 256] };
+    for count in [255u32, 4096, 32_000, 65_535, 100_000] {
+        let head = |major: u8| -> Vec<u8> {
+            if count < 256 {
+                vec![(major << 5) | 24, count as u8]
+            } else if count < 65_536 {
+                let mut h = vec![(major << 5) | 25];
+                h.extend_from_slice(&(count as u16).to_be_bytes());
+                h
+            } else {
+                let mut h = vec![(major << 5) | 26];
+                h.extend_from_slice(&count.to_be_bytes());
+                h
+            }
+        };
+        for d in amp_depths {
+            // arrays in arrays; maps whose first KEY is the next map; maps whose first VALUE is
+            for style in 0..3u8 {
+                let mut b = Vec::new();
+                for _ in 0..*d {
+                    match style {
+                        0 => b.extend_from_slice(&head(4)),
+                        1 => b.extend_from_slice(&head(5)),
+                        _ => {
+                            b.extend_from_slice(&head(5));
+                            b.push(0x00);
+                        }
+                    }
+                }
+                b.extend(std::iter::repeat(0u8).take(count as usize));
+                v.push(b);
+            }
+        }
+    }
     v.push(vec![0xff; 1 << 20]);
     v.push(vec![0x00; 1 << 20]);
     v.push(vec![0x61; 1 << 20]);
